@@ -473,6 +473,7 @@ func (db *DB) doProcessIterations(iterations []*iteration) {
 	}
 
 	iterations[0].t.log.Debugf("Coalescing %d iterations", len(iterations))
+	verifEvent("coalesce.batch", iterations[0].t.Name, len(iterations))
 
 	remainingIterations := make(map[int]*iteration, len(iterations))
 	for i, it := range iterations {
